@@ -126,7 +126,9 @@ def rule_E4(F, R, include_tests=False):
             decl = callee_decl(e) or ''
             if cn == 'std::rc::Rc::new' and ty_is_rc_bdd(e['ty']):
                 R.count('E4:Rc<BDD>::new-sites')
-                ok = name in allowed_new
+                import facts as _facts
+                roots = _facts.baseline_roots(c, name)
+                ok = name in allowed_new or (name.split('::{closure')[0] not in _facts.baseline_fns() and bool(roots) and roots <= set(allowed_new))
                 R.obligation(ok, 'E4 new %s %s' % (name, e['loc']))
                 if not ok:
                     R.violation('%s / E4 / Rc::new' % name, 'E4', 'a diagram node is allocated outside mk_choice/new/From: it is not in the unique table', e['loc'])
